@@ -56,7 +56,7 @@ def showOutcome (o : Outcome × List Int) (sigs : Option (List Int)) : String :=
     let chg := match r.changeIdx with
       | none => "none"
       | some i => s!"{i}:{(r.outs.getD i default).Value}"
-    let base := s!"ok n={r.inputs.length} total={r.total} nout={r.outs.length} chg={chg} fee={r.fee} targets={showTargets o.2}"
+    let base := s!"ok n={r.inputs.length} total={r.total} nout={r.outs.length} chg={chg} fee={r.fee} targets={showTargets o.2} st=1"
     match sigs with
     | none => base
     | some sg =>
